@@ -54,6 +54,16 @@ struct Rec {
 	void i1(int a) { std::vector<S> v; v.push_back(dec(a)); fire(v); }
 	void i2(int a,int b) { std::vector<S> v; v.push_back(dec(a)); v.push_back(dec(b)); fire(v); }
 	void i3(int a,int b,int c) { std::vector<S> v; v.push_back(dec(a)); v.push_back(dec(b)); v.push_back(dec(c)); fire(v); }
+	// map-style members with other integer parameter types (the generic parse_url_parameter template)
+	template<typename T> static S decT(T v) { std::ostringstream o; o.imbue(std::locale::classic()); o << v; return o.str(); }
+	#define C20_NUM_MEMBERS(P,T) \
+		void P##1(T a) { std::vector<S> v; v.push_back(decT(a)); fire(v); } \
+		void P##2(T a,T b) { std::vector<S> v; v.push_back(decT(a)); v.push_back(decT(b)); fire(v); }
+	C20_NUM_MEMBERS(u,unsigned)
+	C20_NUM_MEMBERS(l,long long)
+	C20_NUM_MEMBERS(w,unsigned long long)
+	C20_NUM_MEMBERS(h,short)
+	C20_NUM_MEMBERS(k,unsigned short)
 	void m6(R a,R b,R c,R d,R e,R f) { std::vector<S> v; v.push_back(a); v.push_back(b); v.push_back(c); v.push_back(d); v.push_back(e); v.push_back(f); fire(v); }
 };
 
@@ -155,7 +165,16 @@ public:
 		Rec *r=new Rec(); r->hid=o.hid; recs.push_back(r);
 		std::vector<int> const &s=o.sel;
 		cppcms::url_dispatcher &d=dispatcher();
-		if(o.kind=='a') {
+		if(o.kind=='g') {
+			// url_dispatcher::assign_generic: the handler receives the whole booster::cmatch and picks the groups itself
+			std::vector<int> sel=s;
+			d.assign_generic(o.pat,[r,sel](booster::cmatch const &m) {
+				std::vector<std::string> v;
+				for(size_t i=0;i<sel.size();i++) v.push_back(m[sel[i]]);
+				r->fire(v);
+			});
+		}
+		else if(o.kind=='a') {
 			switch(s.size()) {
 			case 0: d.assign(o.pat,&Rec::a0,r); break;
 			case 1: d.assign(o.pat,&Rec::a1,r,s[0]); break;
@@ -181,6 +200,21 @@ public:
 			default: throw unsupported("int map arity");
 			}
 		}
+		#define C20_NUM_MAP(P) { \
+			if(o.anym) switch(s.size()) { \
+			case 1: d.map(o.pat,&Rec::P##1,r,s[0]); break; \
+			case 2: d.map(o.pat,&Rec::P##2,r,s[0],s[1]); break; \
+			default: throw unsupported("numeric map arity"); } \
+			else switch(s.size()) { \
+			case 1: d.map(o.mpat,o.pat,&Rec::P##1,r,s[0]); break; \
+			case 2: d.map(o.mpat,o.pat,&Rec::P##2,r,s[0],s[1]); break; \
+			default: throw unsupported("numeric map arity"); } }
+		else if(o.kind=='u') C20_NUM_MAP(u)
+		else if(o.kind=='l') C20_NUM_MAP(l)
+		else if(o.kind=='w') C20_NUM_MAP(w)
+		else if(o.kind=='h') C20_NUM_MAP(h)
+		else if(o.kind=='k') C20_NUM_MAP(k)
+		else if(o.kind!='m') throw unsupported("handler kind");
 		else if(o.anym) {
 			switch(s.size()) {
 			case 0: d.map(o.pat,&Rec::m0,r); break;
@@ -344,6 +378,22 @@ static std::string run_tree(Toks &t)
 			else       same = ok2 ? (ok && u==u2) : (u2.empty() && ok && u==invalid_marker);
 			if(!same) r+=std::string(" ! ALT-DIFF ")+(ok2?"U "+hex(u2):(u2.empty()?std::string("E"):"E "+u2));
 		}
+		else if(q=="sv" || q=="cv") {
+			// url_mapper::set_value / clear_value between the queries (on the root mapper, and on the twin tree)
+			std::string k=t.hexs(); std::string v; if(q=="sv") v=t.hexs();
+			for(size_t i=0;i<vals.size();) { if(vals[i].first==k) vals.erase(vals.begin()+i); else i++; }
+			if(q=="sv") {
+				vals.push_back(std::make_pair(k,v));
+				root->mapper().set_value(k,v);
+				if(alt.get()) alt->mapper().set_value(k,v);
+				r="s";
+			}
+			else {
+				root->mapper().clear_value(k);
+				if(alt.get()) alt->mapper().clear_value(k);
+				r="c";
+			}
+		}
 		else throw std::runtime_error("query "+q);
 		if(!first) out<<" | ";
 		first=false;
@@ -367,6 +417,63 @@ static booster::regex rx(std::string const &tok,bool &present)
 	present=true; return booster::regex(unhex(tok.substr(0,p)));
 }
 
+// A mount point read from "{ <host> <script> <path> <group> <p|s> }".  The same mount point can be written with several of the
+// public constructors / setters of cppcms::mount_point; which spelling is used is derived from the text of the tokens, so a case
+// always builds the same object, and across cases every constructor and setter is exercised:
+//   0: the five-argument constructor (selection, host, script, path, group) with booster::regex objects
+//   1: the convenience constructor that fits the present patterns (path+group / script / script+path+group /
+//      selection+selected+group / selection+non+selected+group / selection+non), the host through the setter
+//   2: the default constructor followed by the setters, then copied through operator=
+static std::string rx_text(std::string const &tok)
+{
+	size_t p=tok.find(':'); if(p==std::string::npos) throw std::runtime_error("abstract pattern");
+	return unhex(tok.substr(0,p));
+}
+static cppcms::mount_point make_mp(std::string const &htok,std::string const &stok,std::string const &ptok,int g,std::string const &sel)
+{
+	bool ph,ps,pp;
+	booster::regex h=rx(htok,ph), s=rx(stok,ps), p=rx(ptok,pp);
+	cppcms::mount_point::selection_type st=sel=="p"?cppcms::mount_point::match_path_info:cppcms::mount_point::match_script_name;
+	unsigned hash=g*7+(sel=="p"?1:0);
+	std::string all=htok+" "+stok+" "+ptok;
+	for(size_t i=0;i<all.size();i++) hash=hash*31+(unsigned char)all[i];
+	int variant=hash%3;
+	bool psel=(st==cppcms::mount_point::match_path_info)?pp:ps;       // the selected pattern is present
+	bool pnon=(st==cppcms::mount_point::match_path_info)?ps:pp;       // the other one is present
+	std::string tsel=psel?rx_text(st==cppcms::mount_point::match_path_info?ptok:stok):std::string();
+	std::string tnon=pnon?rx_text(st==cppcms::mount_point::match_path_info?stok:ptok):std::string();
+	if(variant==1) {
+		bool done=true;
+		cppcms::mount_point mp;
+		bool alt=(hash/3)%2==0;
+		if(st==cppcms::mount_point::match_path_info && alt && psel && !pnon) mp=cppcms::mount_point(tsel,g);
+		else if(st==cppcms::mount_point::match_path_info && alt && !psel && pnon && g==0) mp=cppcms::mount_point(tnon);
+		else if(st==cppcms::mount_point::match_path_info && alt && psel && pnon) mp=cppcms::mount_point(tnon,tsel,g);
+		else if(psel && !pnon) mp=cppcms::mount_point(st,tsel,g);
+		else if(psel && pnon) mp=cppcms::mount_point(st,tnon,tsel,g);
+		else if(!psel && pnon && g==0) mp=cppcms::mount_point(st,tnon);
+		else if(!psel && !pnon && g==0 && st==cppcms::mount_point::match_path_info) mp=cppcms::mount_point();
+		else done=false;
+		if(done) {
+			if(ph) mp.host(h);
+			return mp;
+		}
+		variant=2;
+	}
+	if(variant==2) {
+		cppcms::mount_point mp;
+		mp.selection(st);
+		mp.group(g);
+		if(ph) mp.host(h);
+		if(ps) mp.script_name(s);
+		if(pp) mp.path_info(p);
+		cppcms::mount_point copy;
+		copy=mp;
+		return copy;
+	}
+	return cppcms::mount_point(st,h,s,p,g);
+}
+
 static std::string run_pools(Toks &t)
 {
 	int n=t.counted('N');
@@ -376,12 +483,11 @@ static std::string run_pools(Toks &t)
 	std::vector<AppD> descs;
 	for(int i=0;i<n;i++) {
 		t.expect("{");
-		bool ph,ps,pp;
-		booster::regex h=rx(t.next(),ph), s=rx(t.next(),ps), p=rx(t.next(),pp);
+		std::string htok=t.next(), stok=t.next(), ptok=t.next();
 		int g=t.num();
 		std::string sel=t.next();
 		t.expect("}");
-		cppcms::mount_point mp(sel=="p"?cppcms::mount_point::match_path_info:cppcms::mount_point::match_script_name,h,s,p,g);
+		cppcms::mount_point mp=make_mp(htok,stok,ptok,g,sel);
 		mps.push_back(mp);
 		AppD d=parse_app(t);
 		descs.push_back(d);
